@@ -3,6 +3,8 @@ package main
 import (
 	"encoding/json"
 	"fmt"
+	"github.com/z7zmey/php-parser/verifmc/drive"
+	"github.com/z7zmey/php-parser/verifmc/lexm"
 	"os"
 	"os/exec"
 	"runtime"
@@ -354,6 +356,62 @@ func runPoolRacePass(c *core.Ctx) {
 	}
 }
 
+// c18Scan: unit repeated until at least want pool requests (tokens + free-floating tokens) have been made.
+func c18Scan(c *core.Ctx, unit string, want int) {
+	drive.SetBlockSize(drive.ProdBlock)
+	defer drive.SetBlockSize(drive.ProdBlock)
+	// requests per unit: measured on one scan of a short repetition
+	_, probe, ok := lexm.Scan([]byte("<?php "+strings.Repeat(unit, 8)), drive.V74)
+	if !ok {
+		return
+	}
+	per := 0
+	for _, t := range probe {
+		per += 1 + len(t.FreeFloating)
+	}
+	per = (per + 7) / 8
+	if per == 0 {
+		return
+	}
+	src := []byte("<?php " + strings.Repeat(unit, want/per+1))
+	_, toks, ok := lexm.Scan(src, drive.V74)
+	if !ok {
+		c.Report("scanner fails on a long plain source", mkWhat("%d x %q", want/per+1, unit), nil)
+		return
+	}
+	seen := map[*token.Token]int{}
+	seenPos := map[*position.Position]int{}
+	n := 0
+	check := func(t *token.Token) {
+		n++
+		if t == nil {
+			c.Report("scanner hands out a nil token", mkWhat("request %d of %d x %q", n, want/per+1, unit), nil)
+			return
+		}
+		if k, dup := seen[t]; dup {
+			c.Report("one token object handed out twice during one scan", mkWhat("requests %d and %d (%d x %q)", k, n, want/per+1, unit), nil)
+		}
+		seen[t] = n
+		if t.Position != nil {
+			if k, dup := seenPos[t.Position]; dup {
+				c.Report("one position object handed out twice during one scan", mkWhat("requests %d and %d (%d x %q)", k, n, want/per+1, unit), nil)
+			}
+			seenPos[t.Position] = n
+			p := t.Position
+			if p.StartPos < 0 || p.EndPos > len(src) || p.StartPos > p.EndPos || string(src[p.StartPos:p.EndPos]) != string(t.Value) {
+				c.Report("a token no longer holds its own source bytes at its own position when the scan is over", mkWhat("request %d: %q at %+v (%d x %q)", n, t.Value, *p, want/per+1, unit), nil)
+			}
+		}
+	}
+	for _, t := range toks {
+		for _, f := range t.FreeFloating {
+			check(f)
+		}
+		check(t)
+	}
+	c.Max("max_scanner_requests", int64(n))
+}
+
 func max0(i int) int {
 	if i < 0 {
 		return 0
@@ -439,6 +497,21 @@ func init() {
 								c.Nontrivial(fmt.Sprintf("%s/two/%d/%d/%d", pool, sa, sb, w))
 							}
 						}
+					}
+				}
+			}
+			// the pools as the scanner uses them (production block size, whatever constructor and sizing the scanner chooses):
+			// sources of three densities whose token count crosses 1, 2, 3, 4 and 9 block boundaries by -1, 0, +1, +2 requests;
+			// every token and free-floating token handed out must be a distinct object that still holds its own source bytes
+			// at its own position when the scan is over
+			for _, dens := range []string{"$a=1;", "$a = 1 ;\n", "f ( $a , 'b' ) ; /*c*/ "} {
+				for _, blocks := range []int{1, 2, 3, 4, 9} {
+					for d := -3; d <= 3; d++ {
+						if !c.Next() {
+							continue
+						}
+						c18Scan(c, dens, blocks*1024+d)
+						c.Stat("scanner_histories", 1)
 					}
 				}
 			}
